@@ -206,7 +206,7 @@ spif_mbuff_init_from_fp(spif_mbuff_t self, FILE *fp)
         self->len = 0;
         self->buff = (spif_byteptr_t) MALLOC(self->size);
 
-        for (p = self->buff; (cnt = fread(p, 1, buff_inc, fp)) > 0; p += buff_inc) {
+        for (p = self->buff; (cnt = fread(p, 1, buff_inc, fp)) > 0;) {
             self->len += cnt;
             if (feof(fp)) {
                 break;
@@ -214,8 +214,10 @@ spif_mbuff_init_from_fp(spif_mbuff_t self, FILE *fp)
                 libast_print_warning("read failed:  %s.\n", strerror(errno));
                 break;
             } else {
-                self->size += buff_inc;
+                self->size = self->len + buff_inc;
                 self->buff = (spif_byteptr_t) REALLOC(self->buff, self->size);
+                /* The buffer may have moved. */
+                p = self->buff + self->len;
             }
         }
         self->size = self->len;
